@@ -166,7 +166,10 @@ def handle(c):
                                                   'design entry %d is %r, exact derivative %s' % (row, col, dq, want))
                                     row += 1
                         col += 1
-                p.run_model()
+                try:
+                    p.run_model()
+                except AnalysisError:
+                    pass
     if any(r is None for r in res):
         out['res'] = '__none__'
         if out['ncfg'] == 0:
